@@ -162,7 +162,7 @@ impl<T> MiniVec<T> {
     let old_capacity = self.capacity();
     let new_capacity = capacity;
 
-    if new_capacity == old_capacity {
+    if new_capacity == old_capacity && alignment == self.alignment() {
       return;
     }
 
